@@ -38,7 +38,9 @@ func probes() []msg {
 		names = append(names, n)
 	}
 	sortStrings(names)
-	repl := []string{`null`, `true`, `0`, `-1`, `1e99`, `18446744073709551616`, `""`, `"x"`, `[]`, `[ ]`, `{}`, `[[]]`, `[{}]`, `"` + strings.Repeat("y", 70000) + `"`}
+	repl := []string{`null`, `true`, `0`, `-1`, `1e99`, `18446744073709551616`, `""`, `"x"`, `[]`, `[ ]`, `{}`, `[[]]`, `[{}]`, `"` + strings.Repeat("y", 70000) + `"`,
+		// numbers around the thresholds the protocol knows (1 s, 30 s, 60 s, 32 bit)
+		`1`, `999`, `1000`, `1001`, `29999`, `30000`, `30001`, `59999`, `60001`, `4294967296`}
 	for _, n := range names {
 		f := valid[n]
 		hdr, body := f[0], string(f[1:])
